@@ -67,7 +67,8 @@ G1bCase(e1, e2, kind, i1, i2) ==
   [fam |-> "G1b",
    prog |-> Program(<<Struct("R", Mod, <<>>, <<SField("x", P_Adt("D", i1)), SField("y", P_Adt("D", i2))>>), G1bDef(e1, e2, kind)>> \o Helpers, <<>>),
    roots |-> <<A0("R")>>]
-G1b(z) == {G1bCase(e1, e2, k, i1, i2) : e1 \in FieldExprsB, e2 \in FieldExprsB, k \in {"struct", "enum"}, i1 \in ArgPairs, i2 \in ArgPairs}
+G1bK(k) == {G1bCase(e1, e2, k, i1, i2) : e1 \in FieldExprsB, e2 \in FieldExprsB, i1 \in ArgPairs, i2 \in ArgPairs}
+G1b(z) == G1bK("struct") \cup G1bK("enum")
 
 (* G1c: definitions in nested modules referring to each other, recursion through Box/Vec/Option<Box> *)
 RecKinds == {"box", "vec", "optbox", "mutual", "generic", "posbox"}
